@@ -177,6 +177,15 @@ pub fn exhaustive_count(id: &str, tier: &str) -> u64 {
 }
 
 pub fn generate(id: &str, tier: &str, r: u64, rng: &mut Rng) -> Value {
+    let mut sc = generate_inner(id, tier, r, rng);
+    // a sample of the format/digest runs is cross-checked against the independent python implementation
+    if matches!(id, "C16" | "C17") && r % 64 == 5 && sc.get("engine").is_none() {
+        sc["xcheck"] = serde_json::json!(true);
+    }
+    sc
+}
+
+fn generate_inner(id: &str, tier: &str, r: u64, rng: &mut Rng) -> Value {
     let ex = exhaustive_count(id, tier);
     // scenario families that need the system-call simulator inside otherwise history-driven checks
     if r >= ex {
